@@ -111,6 +111,59 @@ theorem spelling_does_not_change_decisions (above q : Path) (sub : Name) (hsub :
   rw [this, walkSegs_plain above q hq]
   exact checkPath_relocate above q
 
+theorem mem_of_mem_dropLast_aux {α : Type} : ∀ (l : List α) (a : α), a ∈ l.dropLast → a ∈ l
+  | [], _, h => by simp at h
+  | [_], _, h => by simp at h
+  | x :: y :: zs, a, h => by
+    rw [List.dropLast_cons_cons, List.mem_cons] at h
+    rcases h with h | h
+    · simp [h]
+    · exact List.mem_cons_of_mem _ (mem_of_mem_dropLast_aux (y :: zs) a h)
+
+/-- **Resolution yields a normal form**: starting from a resolved directory, whatever the spelling (any mix of
+    ".", "", ".." and names), the resolved path contains no ".", "" or ".." segment -/
+theorem walkSegs_resolved (segs : List Name) : ∀ (start : Path), (∀ n ∈ start, isSpecial n = false) →
+    ∀ n ∈ walkSegs start segs, isSpecial n = false := by
+  induction segs with
+  | nil => intro start h; simpa [walkSegs] using h
+  | cons seg rest ih =>
+    intro start h
+    simp only [walkSegs]
+    split
+    · exact ih start h
+    · split
+      · exact ih _ (fun n hn => h n (mem_of_mem_dropLast_aux _ _ hn))
+      · rename_i h1 h2
+        refine ih _ (fun n hn => ?_)
+        rcases List.mem_append.mp hn with hn | hn
+        · exact h n hn
+        · have : n = seg := by simpa using hn
+          subst this
+          simp only [Bool.or_eq_true, not_or, Bool.not_eq_true] at h1
+          simp [isSpecial, h1.1, h1.2, h2]
+
+/-- **Resolving twice is resolving once**, for every spelling and every resolved working directory -/
+theorem resolve_resolve (cwd : Path) (absolute : Bool) (segs : List Name) (hcwd : ∀ n ∈ cwd, isSpecial n = false) :
+    resolveSpelling [] true (resolveSpelling cwd absolute segs) = resolveSpelling cwd absolute segs := by
+  apply resolve_idempotent
+  unfold resolveSpelling
+  apply walkSegs_resolved
+  cases absolute
+  · simpa using hcwd
+  · simp
+
+/-- ".." at the file-system root stays at the root (as `os.path.abspath` and `Path.resolve` do) -/
+theorem dotdot_at_root (b : List Name) : walkSegs [] (['.', '.'] :: b) = walkSegs [] b := by
+  simp [walkSegs]
+
+/-- so the decisions taken on a resolved path see only plain names: every spelling of a file of the project is judged
+    by the same project-relative components -/
+theorem decisions_see_plain_names (above : Path) (cwd : Path) (absolute : Bool) (segs : List Name) (q : Path)
+    (hres : resolveSpelling cwd absolute segs = above ++ q) :
+    checkPath above (resolveSpelling cwd absolute segs) = q ∧
+    hardExcluded above (resolveSpelling cwd absolute segs) = hardExcluded above (above ++ q) := by
+  rw [hres]; exact ⟨checkPath_relocate above q, rfl⟩
+
 /-! ### symbolic links -/
 
 /-- without links the link-aware walk is the plain walk -/
